@@ -77,12 +77,11 @@ func (e *Enc) loopHeader(b *ssa.BasicBlock, li *loopInfo, st *State) {
 		if strings.HasPrefix(k, "b:anyheld:") && !ws.ghost["held:*"] {
 			continue // no lock operation in the loop
 		}
+		if strings.HasPrefix(k, "had:") || strings.HasPrefix(k, "vis:") && !ws.ghost[k] {
+			continue // fixed at the range statement / changed only by its own Next
+		}
 		if ws.ghost[k] || ws.all || strings.HasPrefix(k, "iter:") && ws.ghost[k] {
-			sortName := "Int"
-			if strings.HasPrefix(k, "held:") || strings.HasPrefix(k, "b:") {
-				sortName = "Bool"
-			}
-			st.ghost[k] = e.declare(e.freshName("gh"), sortName)
+			st.ghost[k] = e.declare(e.freshName("gh"), ghostSort(k))
 		}
 	}
 	if e.ctr != nil {
@@ -554,6 +553,7 @@ func (e *Enc) instrWrites(ins ssa.Instruction) *writeSet {
 		}
 	case *ssa.Next:
 		ws.ghost["iter:"+ins.Iter.Name()] = true
+		ws.ghost["vis:"+ins.Iter.Name()] = true
 	case *ssa.Call:
 		ws.add(e.callWrites(&ins.Call))
 	case *ssa.Go:
@@ -1298,6 +1298,65 @@ func (e *Enc) execMapUpdate(ins *ssa.MapUpdate, st *State) {
 
 // ---------- range / next ----------
 
+// mapRangeTrackable: no instruction in the loop(s) stepping this map iterator can delete
+// from a map of this type (delete builtin, or a call that may write such a map).
+func (e *Enc) mapRangeTrackable(r *ssa.Range) bool {
+	root := typeKey(r.X.Type().Underlying())
+	var li *loopInfo
+	for _, ref := range *r.Referrers() {
+		nx, ok := ref.(*ssa.Next)
+		if !ok {
+			continue
+		}
+		for _, l := range e.loops {
+			if l.Body[nx.Block()] && (li == nil || len(l.Body) > len(li.Body)) {
+				li = l // outermost loop containing the Next: everything that runs between two Next
+			}
+		}
+	}
+	if li == nil {
+		return false
+	}
+	// restrict to the innermost loop that contains the Next (the range loop itself)
+	for _, ref := range *r.Referrers() {
+		if nx, ok := ref.(*ssa.Next); ok {
+			for _, l := range e.loops {
+				if l.Body[nx.Block()] && len(l.Body) < len(li.Body) {
+					li = l
+				}
+			}
+		}
+	}
+	for b := range li.Body {
+		for _, ins := range b.Instrs {
+			switch x := ins.(type) {
+			case *ssa.Call:
+				if bi, ok := x.Call.Value.(*ssa.Builtin); ok {
+					if bi.Name() == "delete" && typeKey(x.Call.Args[0].Type().Underlying()) == root {
+						return false
+					}
+					if bi.Name() == "clear" {
+						return false
+					}
+					continue
+				}
+				ws := e.callWrites(&x.Call)
+				if ws.all || ws.roots[root] {
+					return false
+				}
+			case *ssa.Go:
+				ws := e.callWrites(&x.Call)
+				if ws.all || ws.roots[root] {
+					return false
+				}
+			case *ssa.Defer:
+				return false
+			}
+		}
+	}
+	return true
+}
+
 func (e *Enc) execRange(ins *ssa.Range, st *State) {
 	x := e.val(ins.X)
 	if _, isMap := ins.X.Type().Underlying().(*types.Map); isMap {
@@ -1309,6 +1368,15 @@ func (e *Enc) execRange(ins *ssa.Range, st *State) {
 		it.IsStr = true
 	case *types.Map:
 		it.IsMap = true
+	}
+	if mt, isMap := ins.X.Type().Underlying().(*types.Map); isMap && mapKeyOK(mt) && e.mapRangeTrackable(ins) {
+		// visited-set bookkeeping: sound while nothing is deleted from the map during
+		// the loop (each key present at the start and not deleted is produced exactly
+		// once; keys inserted meanwhile may or may not be produced)
+		it.Vis, it.Had = "vis:"+ins.Name(), "had:"+ins.Name()
+		has, _, _ := e.mapKeys(mt)
+		st.ghost[it.Vis] = "((as const (Array Int Bool)) false)"
+		st.ghost[it.Had] = e.define("had", "(Array Int Bool)", sIte("(= "+x.term()+" 0)", "((as const (Array Int Bool)) false)", sSel(e.heapGet(st, has), x.term())))
 	}
 	e.iterInfo[ins] = it
 	st.ghost[it.Key] = "0"
@@ -1356,6 +1424,14 @@ func (e *Enc) execNext(ins *ssa.Next, st *State) {
 		has, _, vals := e.mapKeys(m)
 		ref := it.X.term()
 		e.assumeHere(sImp(okT, sAnd("(not (= "+ref+" 0))", sSel(e.heapGet(st, has), ref, kv.term()))))
+		if it.Vis != "" {
+			if vis, ok := st.ghost[it.Vis]; ok {
+				had := st.ghost[it.Had]
+				e.assumeHere(sImp(okT, "(not (select "+vis+" "+kv.term()+"))"))
+				e.assumeHere(sImp(sNot(okT), "(forall ((k!v Int)) (! (=> (select "+had+" k!v) (select "+vis+" k!v)) :pattern ((select "+vis+" k!v)) :pattern ((select "+had+" k!v))))"))
+				st.ghost[it.Vis] = e.define("vis", "(Array Int Bool)", sIte(okT, "(store "+vis+" "+kv.term()+" true)", vis))
+			}
+		}
 		if vals != nil {
 			vv = &Val{T: m.Elem()}
 			for _, hk := range vals {
